@@ -63,6 +63,9 @@ def run(chk: Check):
                       schedule=((2, 6), (1, 3), (4, 6)))]
     traces = [t for r in parallel.run_jobs("harness.comp_driver", "run", jobs) for t in r]
 
+    import random
+    _glue(chk, random.Random(900 + chk.seed))
+
     def nontrivial(t):
         mv = [e["moved"] for e in t["ev"] if t["hdr"]["mh_like"][e["k"] - 1]]
         return any(mv) and not all(mv)
@@ -71,6 +74,19 @@ def run(chk: Check):
            keyfn=lambda r: f"real:{r.trace['hdr']['model']}:{r.conjunct}",
            describe=lambda r: f"sequence {r.trace['hdr']['seq']} on {r.trace['hdr']['model']} model, kernel "
                               f"{r.trace['ev'][r.line - 1]['kind']}")
+
+
+def _glue(chk, rng):
+    """HMC / NUTS start from the state their predecessor left (shared with C04's premise P6)."""
+    from harness import glue_driver as G
+
+    evs = [{"hdr": {"kernel": "hmc", "model": "liesel", "block": ["b", "sigma_transformed"]},
+            "ev": G.glue_events(rng, "hmc", "liesel", ("b", "sigma_transformed"), n=3)}]
+    if not chk.quick:
+        evs.append({"hdr": {"kernel": "nuts", "model": "dict", "block": ["b"]},
+                    "ev": G.glue_events(rng, "nuts", "dict", ("b",), n=4)})
+    chk.tv("Trace_Glue.tla", evs, tag="hmc_start_state",
+           keyfn=lambda r: f"glue:{r.trace['hdr']['kernel']}:{r.conjunct}")
 
 
 def replay(chk: Check, data):
